@@ -25,9 +25,8 @@ def run(ctx, rep):
     runloop.r12r(ctx, rep)
     runloop.r12s(ctx, rep)
     runloop.r13g(ctx, rep, rule="R12t")
+    C03.r03p(ctx, rep, rule="R12u")
     from . import prelude
     prelude.r12n(ctx, rep)
     runloop.r07i(ctx, rep, rule="R12m")
-    rep.note("observation: jump targets are encoded as VCell::Ptr and handed to the marker like references — conservative "
-             "retention of at most bc.len() low-numbered cells per lambda (bounded); that the marker leaves free cells alone is R03j")
     rep.not_decided += ["heap growth over unbounded executions", "leaks through over-marking that grow with work"]
